@@ -25,6 +25,28 @@ inductive Reduced (key : Message → Nat) (diff : Nat → Nat → Nat) (th : Nat
   | drop (k m ms out) : isRecord m = true → diff (key m) k < th → Reduced key diff th (some k) ms out →
       Reduced key diff th (some k) (m :: ms) out
 
+/-- `ReducedI key diff th ref reached ms out` — what the interval reducers do on EVERY message list, records without a
+valid key included (no hypothesis): `out` is `ms` with some RECORDS left out — every other message stays, in order; the
+first record stays whatever its key (`first`); a later record WITHOUT a valid key (no distance / no timestamp: it has no
+place on the axis the interval is measured on) is left out (`noKey`: the code's `if d == Uint32Invalid { continue }`); a
+later record with a valid key is left out exactly when it lies closer than `th` to the reference `ref` — the key of the
+last kept record that has a valid key (0 while there is none: only when the first record has no valid key).
+`reached` = a record has been met. Under `KeysValid` this is `Reduced` (`ReducedI.toReduced`). -/
+inductive ReducedI (key : Message → Nat) (diff : Nat → Nat → Nat) (th : Nat) :
+    Nat → Bool → List Message → List Message → Prop
+  | nil (ref reached) : ReducedI key diff th ref reached [] []
+  | other (ref reached m ms out) : isRecord m = false → ReducedI key diff th ref reached ms out →
+      ReducedI key diff th ref reached (m :: ms) (m :: out)
+  | first (ref m ms out) : isRecord m = true →
+      ReducedI key diff th (if key m = uint32Invalid then ref else key m) true ms out →
+      ReducedI key diff th ref false (m :: ms) (m :: out)
+  | noKey (ref m ms out) : isRecord m = true → key m = uint32Invalid → ReducedI key diff th ref true ms out →
+      ReducedI key diff th ref true (m :: ms) out
+  | keep (ref m ms out) : isRecord m = true → key m ≠ uint32Invalid → th ≤ diff (key m) ref →
+      ReducedI key diff th (key m) true ms out → ReducedI key diff th ref true (m :: ms) (m :: out)
+  | drop (ref m ms out) : isRecord m = true → key m ≠ uint32Invalid → diff (key m) ref < th →
+      ReducedI key diff th ref true ms out → ReducedI key diff th ref true (m :: ms) out
+
 /-- every record carries a valid key (distance / timestamp) -/
 def KeysValid (key : Message → Nat) (ms : List Message) : Prop :=
   ∀ m ∈ ms, isRecord m = true → key m ≠ uint32Invalid
@@ -112,6 +134,25 @@ def reducedB (key : Message → Nat) (diff : Nat → Nat → Nat) (th : Nat) : O
           | o :: os => o == m && reducedB key diff th (some (key m)) ms os
           | [] => false
 
+/-- decision procedure for `ReducedI` (which is deterministic) -/
+def reducedIB (key : Message → Nat) (diff : Nat → Nat → Nat) (th : Nat) : Nat → Bool → List Message → List Message → Bool
+  | _, _, [], out => out.isEmpty
+  | ref, reached, m :: ms, out =>
+    if !isRecord m then
+      match out with
+      | o :: os => o == m && reducedIB key diff th ref reached ms os
+      | [] => false
+    else if !reached then
+      match out with
+      | o :: os => o == m && reducedIB key diff th (if key m = uint32Invalid then ref else key m) true ms os
+      | [] => false
+    else if key m = uint32Invalid then reducedIB key diff th ref true ms out
+    else if diff (key m) ref < th then reducedIB key diff th ref true ms out
+    else
+      match out with
+      | o :: os => o == m && reducedIB key diff th (key m) true ms os
+      | [] => false
+
 def keysValidB (key : Message → Nat) (ms : List Message) : Bool :=
   ms.all fun m => !isRecord m || key m != uint32Invalid
 
@@ -196,6 +237,19 @@ def unitsDisagree (ph : PH) (first : Nat) (ms : List Message) : Bool :=
     | none => uint32Invalid
   (ms.filter (·.num == ph.mesgNum)).any fun m =>
     decide ((lapStartTime ph m + u32 (fval m ph.totalTimerTime)) % 2 ^ 32 < ts) != decide (lapEndTime ph m < ts)
+
+/-- the class of finding KF-C20-4: the two stretches OVERLAP — the first record left revealed by the start stage is
+concealed by the end stage — and the last record left revealed by the end stage (which then lies before it in the
+file) does not carry a SMALLER timestamp: two records written in the same second (or a clock stepping back) at the
+boundary. `updateStartPosition` and `updateEndPosition` each go by time: with equal timestamps the lap that the start
+stage rewrites (first lap reaching T) can be an earlier one than the lap the end stage handles (last lap starting at
+or before T), and it keeps the coordinates of a record the end stage conceals. Implied to be `false` by strictly
+increasing record timestamps (`overlapTie_false_of_inc`). -/
+def overlapTie (first last : Nat) (ms : List Message) : Bool :=
+  first != 0 && last != 0 &&
+  match firstRevealed first ms, lastRevealed last ms with
+  | some r0, some rl => inEnd last ms r0 && !decide (tstamp rl < tstamp r0)
+  | _, _ => false
 
 def sortedLtB : List Nat → Bool
   | a :: b :: rest => a < b && sortedLtB (b :: rest)
